@@ -12,6 +12,7 @@ import (
 	"os"
 	"runtime"
 	"sort"
+	"strings"
 	"time"
 
 	"verif/mc/ev"
@@ -36,7 +37,7 @@ func main() {
 		"A case is distinct by the hash of its model (structure, ids, values, rendering choices); every case runs the real parser, " +
 		"real ProcessRequest and real read path, so all accepted cases are non-trivial."
 	r.Assumptions = []string{
-		"ClickHouse stores a native block column-by-column by name and returns FixedString/String/Int values unchanged; the scripted driver answers TempoService's single query shape (trace_id = unhex(hex), ORDER BY timestamp_ns, LIMIT) over the decoded block rows",
+		"ClickHouse stores a native block column-by-column by name and returns FixedString/String/Int values unchanged; the statement TempoService sends is executed by the ClickHouse-subset interpreter mc/chsim over a tempo_traces table holding the decoded block rows (a statement chsim cannot evaluate ends the run with exit 2, never a verdict)",
 		"process time zone is UTC (the Date column of the tag index is compared with the UTC day of timestamp_ns; zone dependence belongs to C04/C13)",
 		"flattening rule for the tag index: scalar -> key=text, list element -> key.<index>, map entry -> key.<subkey>, recursively; int/bool/double texts are compared by value, strings exactly; bytes/unset values and non-string Zipkin tag values are not judged",
 		"service name is judged only where the model defines it (OTLP: string resource attribute service.name; Zipkin: localEndpoint.serviceName)",
@@ -64,6 +65,8 @@ func main() {
 		}
 		off += f.size
 	}
+	var harnessErrs []string
+	nHarness := 0
 	counters := map[string]int64{}
 	famCount := map[string]int{}
 	for _, f := range sp.fams {
@@ -86,6 +89,13 @@ func main() {
 			}
 		},
 		Violation: func(v *wkpool.Viol) {
+			if v.Class == harnessClass {
+				if len(harnessErrs) < 5 {
+					harnessErrs = append(harnessErrs, fmt.Sprintf("case %d: %s", v.Idx, v.What))
+				}
+				nHarness++
+				return
+			}
 			var rep any
 			json.Unmarshal(v.Replay, &rep)
 			r.Violate(v.Class, v.What, rep)
@@ -107,6 +117,9 @@ func main() {
 	err := wkpool.Parent(sp.total, wkpool.Options{Workers: workers, Deadline: r.Deadline, Args: os.Args[1:], Env: []string{"TZ=UTC"}, MemKB: 4 << 20}, sink)
 	if err != nil {
 		ev.Fatal("%v", err)
+	}
+	if nHarness > 0 {
+		ev.Fatal("%d cases could not be evaluated by the machinery (no verdict); first ones: %s", nHarness, strings.Join(harnessErrs, " || "))
 	}
 	r.States = r.Evaluations
 	r.Transitions = r.TracesValidated
@@ -191,6 +204,9 @@ func replay(r *ev.Run) {
 	}
 	r.Sample(res.Sample)
 	for _, v := range res.Viols {
+		if v.Class == harnessClass {
+			ev.Fatal("%s", v.What)
+		}
 		r.Violate(v.Class, v.What, &b)
 	}
 	r.Finish()
